@@ -568,6 +568,11 @@ SPECS = {
                 tp(self.ssa.tape@, self.ssa.tape@.len() as int, choices@, Ss { env: eo, outs: o }, inp)
                 ==> ssa_run_rev(r->Ok_0.ssa.tape@, 0, r->Ok_0.ssa.tape@.len() as int, Ss { env: en, outs: o }, inp).outs
                     == ssa_run_rev(self.ssa.tape@, 0, self.ssa.tape@.len() as int, Ss { env: eo, outs: o }, inp).outs,
+            // ... and the register tape of the simplified function (what the evaluators execute, for the NEW budget M) computes
+            // exactly its SSA tape, from any initial register / memory contents
+            r.is_ok() ==> forall|st: St, env: Env, inp: Seq<f32>|
+                (#[trigger] reg_run_rev(r->Ok_0.asm.tape@, 0, r->Ok_0.asm.tape@.len() as int, st, inp)).outs
+                    == (#[trigger] ssa_run_rev(r->Ok_0.ssa.tape@, 0, r->Ok_0.ssa.tape@.len() as int, Ss { env: env, outs: st.outs }, inp)).outs,
 """),
 }
 
@@ -583,6 +588,9 @@ LOOP_INV = """            invariant
                 sinv(workspace.bind@, workspace.count, workspace.alloc.allocations@, ops, k_ as int),
                 ops_out@.len() + nlive(workspace.alloc.allocations@, n) == output_count + workspace.count,
                 ssim(workspace.bind@, ops, k_ as int, ops_out@, choices@),
+                a0_.len() == n, forall|s: int| 0 <= s < n ==> #[trigger] a0_[s] == UNASSIGNED,
+                simf(workspace.alloc.allocations@, a0_, workspace.alloc.out.tape@, 0, workspace.alloc.out.tape@.len() as int,
+                     run_fe(ops_out@, ops_out@.len() as int), run_fo(ops_out@, ops_out@.len() as int)),
                 forall|k: int| 0 <= k < choices@.len() ==> !(#[trigger] choices@[k] is Unknown),
             decreases self.ssa.tape.len() - k_"""
 
@@ -604,6 +612,7 @@ TAIL_PROOF_POST = """            proof {
                 // LEN: one more op; the output's number leaves the allocator's live set, newly numbered arguments enter it
                 lemma_nlive_diff(a_before, a_after, n, ssa_o(op), if kx_ >= 0 { ssa_a(op) } else { -1 }, if ky_ >= 0 { ssa_b(op) } else { -1 });
                 lemma_tail_len(w0.bind@, w0.count, a_before, ops, k0, kx_, ky_, op, workspace.bind@, workspace.count, a_after);
+                lemma_asm_step(a_after, a_before, a0_, w0.alloc.out.tape@, workspace.alloc.out.tape@, out0, op);
             }"""
 
 
@@ -646,7 +655,9 @@ def generate(sem, enums, names):
             workspace.alloc.lemma_fresh_wf(n);
             assert(ops_out@ =~= Seq::<SsaOp>::empty());
             lemma_ssim_init(workspace.bind@, ops, choices@);
-        }"""))
+            lemma_sim_start(workspace.alloc.allocations@, workspace.alloc.out.tape@, ops_out@);
+        }
+        let ghost a0_ = workspace.alloc.allocations@;"""))
     proofs.append((Q, 'k_ += 1;', 0, True, """            proof {
                 assert(ops[k_ as int] == op);
                 lemma_cnt_choice_step(ops, k_ as int, n);
@@ -670,6 +681,7 @@ def generate(sem, enums, names):
                         let a_after = workspace.alloc.allocations@;
                         lemma_tr_output(w0.bind@, w0.count, a_before, ops, k0, a_after);
                         lemma_ssim_output(w0.bind@, w0.count, a_before, ops, k0, op, out0, choices@);
+                        lemma_asm_step(a_after, a_before, a0_, w0.alloc.out.tape@, workspace.alloc.out.tape@, out0, op);
                         lemma_nlive_diff(a_before, a_after, n, ssa_o(op), -1, -1);
                         if w0.bind@[ssa_o(op0)] != u32::MAX {
                             lemma_bound_arg_pending(w0.bind@, w0.count, a_before, ops, k0, ssa_o(op0));
@@ -761,6 +773,7 @@ def generate(sem, enums, names):
             lemma_nlive_zero(workspace.alloc.allocations@, n);
             lemma_cnt_choice_bounds(ops, 0, n);
             lemma_ssim_end(workspace.bind@, ops, ops_out@, choices@);
+            lemma_asm_end(workspace.alloc.allocations@, a0_, workspace.alloc.out.tape@, ops_out@);
         }"""))
     # fix the placeholder: proof after `workspace.alloc.op(op);` at the tail = before `ops_out.push(op);` (second occurrence)
     proofs = [p for p in proofs if p[4] is not None]
@@ -1169,3 +1182,45 @@ proof fn lemma_ssim_end(bind: Seq<u32>, ops: Seq<SsaOp>, out: Seq<SsaOp>, choice
     }
 }
 '''
+
+
+# ---- register level: the allocator's tape computes the emitted SSA tape (same argument as RegTape::new, but the SSA
+# ---- tape grows while the allocator runs)
+S3_PRELUDE += r"""
+proof fn lemma_asm_step(a2: Seq<u32>, a1: Seq<u32>, a0: Seq<u32>, tape1: Seq<RegOp>, tape2: Seq<RegOp>, out: Seq<SsaOp>, op2: SsaOp)
+    requires
+        simf(a1, a0, tape1, 0, tape1.len() as int, run_fe(out, out.len() as int), run_fo(out, out.len() as int)),
+        tape2.len() >= tape1.len(), forall|k: int| 0 <= k < tape1.len() ==> #[trigger] tape2[k] == tape1[k],
+        simf(a2, a1, tape2, tape1.len() as int, tape2.len() as int, ssa_fe(op2), ssa_fo(op2)),
+    ensures simf(a2, a0, tape2, 0, tape2.len() as int, run_fe(out.push(op2), out.len() as int + 1), run_fo(out.push(op2), out.len() as int + 1))
+{
+    let m = out.len() as int;
+    let out2 = out.push(op2);
+    let mid = tape1.len() as int;
+    lemma_sim_ext(a1, a0, tape1, tape2, 0, mid, run_fe(out, m), run_fo(out, m));
+    assert forall|e: Env, i: Seq<f32>| #[trigger] run_fe(out, m)(e, i) == run_fe(out2, m)(e, i) by {
+        lemma_ssa_run_ext(out, out2, 0, m, Ss { env: e, outs: Map::empty() }, i);
+    }
+    assert forall|o: Map<int, f32>, e: Env, i: Seq<f32>| #[trigger] run_fo(out, m)(o, e, i) == run_fo(out2, m)(o, e, i) by {
+        lemma_ssa_run_ext(out, out2, 0, m, Ss { env: e, outs: o }, i);
+    }
+    lemma_simf_fe_ext(a1, a0, tape2, 0, mid, run_fe(out, m), run_fe(out2, m), run_fo(out, m), run_fo(out2, m));
+    assert(out2[m] == op2);
+    lemma_sim_extend(a2, a1, a0, tape2, mid, tape2.len() as int, out2, m);
+}
+/// at the end every allocation is UNASSIGNED, so the register tape computes the emitted SSA tape from any slot contents
+proof fn lemma_asm_end(a: Seq<u32>, a0: Seq<u32>, tape: Seq<RegOp>, out: Seq<SsaOp>)
+    requires simf(a, a0, tape, 0, tape.len() as int, run_fe(out, out.len() as int), run_fo(out, out.len() as int)),
+        forall|b: int| 0 <= b < a.len() ==> #[trigger] a[b] == UNASSIGNED,
+    ensures forall|st: St, env: Env, inp: Seq<f32>|
+        (#[trigger] reg_run_rev(tape, 0, tape.len() as int, st, inp)).outs
+            == (#[trigger] ssa_run_rev(out, 0, out.len() as int, Ss { env: env, outs: st.outs }, inp)).outs
+{
+    reveal(simf);
+    assert forall|st: St, env: Env, inp: Seq<f32>|
+        (#[trigger] reg_run_rev(tape, 0, tape.len() as int, st, inp)).outs
+            == (#[trigger] ssa_run_rev(out, 0, out.len() as int, Ss { env: env, outs: st.outs }, inp)).outs by {
+        assert(agree(a, st.slots, env));
+    }
+}
+"""
